@@ -5,6 +5,9 @@
 //! suffix `r` uses a buffer recycled from a previous reader via `into_parts`/`builder().buffer`; `r<hh>` = that
 //! buffer is left filled with the byte <hh>, e.g. `16r7b` = sixteen stale `{`):
 //!   tlex    <hex>                         -> `<toks> <outcome> <pos>`
+//!   tneed   <hex>                         -> smallest buffer capacity with which every token / comment / look-ahead fits
+//!                                            (harness: independent `ref_lex`; model: `Spec.need`, the fit predicate of
+//!                                            `C07_full_only_if_unfit`)
 //!   tlexg   <guardhex> <hex>              -> same; from_slice over a SUB-slice of a larger allocation whose following
 //!                                            bytes are <guardhex> (the model answers exactly like `tlex <hex>`)
 //!   tstream <cap> <sched> <hex>           -> `<toks> <outcome> <pos> <delivered>`      stops at the first error
@@ -389,6 +392,19 @@ pub fn exec(w: &[&str], obs: &mut Obs) -> Option<String> {
             let expect = x.to_le_bytes().iter().any(|c| *c == 0);
             if r != expect { obs.violation("czb-spec", &case(), &format!("impl {} reference {}", r, expect)); }
             Some(format!("{}", r as u8)) }
+        ["tneed", h] => {
+            let d = unhex(h)?;
+            let n = ref_lex(&d).need;
+            // L3: the number is exact on the real code: a buffer of `need` bytes never overflows, one byte less does
+            let at = run_lex(&Cap::fresh(n), &[Step::Repeat(1)], &d, false, false);
+            if at.out == "err:full" { obs.violation("full-although-fits", &case(), &format!("need {}", n)); }
+            if n >= 2 {
+                let below = run_lex(&Cap::fresh(n - 1), &[], &d, false, false);
+                if below.out != "err:full" { obs.violation("need-not-tight", &case(), &format!("need {} but cap {} gives {}", n, n - 1, below.out)); }
+            }
+            obs.count("tneed");
+            Some(format!("{}", n))
+        }
         ["tlex", h] => {
             let d = unhex(h)?;
             let r = run_lex(&Cap::fresh(0), &[], &d, false, false);
@@ -919,6 +935,16 @@ pub fn gen_c07(g: &mut Gen) {
         }
     }
     g.count("sweep:escape-alignment");
+    // 3c. the fit predicate: `need` of short inputs (the model computes it by scanning every prefix of every remaining input)
+    let n_need = g.budget(1500, 20000);
+    for i in 0..n_need {
+        let d = one_input(&mut rng, if i % 4 == 0 { 40 } else { 16 });
+        g.emit(format!("tneed {}", hex(&d)));
+    }
+    for text in [&b""[..], b"\xef", b"\xef\xbb", b"\xef\xbb\xbf", b"\xef\xbb\xbfa", b" \xef\xbb", b"a", b"=", b"==", b"@", b"@[", b"@[x]", b"\"", b"\"\\", b"\"ab\"", b"#", b"#a\n", b"{}", b"a=\"b c\" #d\n@[e]"] {
+        g.emit(format!("tneed {}", hex(text)));
+    }
+    g.count("need:short-inputs");
     // 4. the SWAR hooks
     let n_hook = g.budget(2000, 60000);
     for _ in 0..n_hook {
